@@ -106,7 +106,8 @@ impl CheckpointStorage {
             .map_err(CheckpointError::Blob)
     }
 
-    async fn find_by_id_or_name(id_or_name: &str, blob: &BlobStore) -> Result<String> {
+    /// Artifact id of the checkpoint with that id, else of the newest checkpoint with that name.
+    pub(crate) async fn find_by_id_or_name(id_or_name: &str, blob: &BlobStore) -> Result<String> {
         let checkpoints = Self::list(blob).await?;
 
         // An id names exactly one checkpoint: it wins over a (newer) checkpoint that merely
